@@ -422,6 +422,25 @@ def compare_flight(case, impl, m):
 # the independent oracle (property statement, plain Python)
 # ----------------------------------------------------------------------------------------------
 
+def altitude_verdict(o_elev: float, d_elev: float, ceiling: float):
+    """From the property statement: the climb starts 3000 ft above the origin (at its own elevation if that reaches the
+    ceiling), cruise is at ceiling - 7000 ft but not below the start level nor above the ceiling, the descent ends
+    3000 ft above the destination (at the ceiling if that reaches it) and never goes up.  A mission whose start level is
+    above the cruise level, or whose descent target is above it, cannot be flown: 'departure' / 'arrival'."""
+    start = o_elev + 3000 * FT
+    if start >= ceiling:
+        start = o_elev
+    cruise = min(max(ceiling - 7000 * FT, start), ceiling)
+    if start > cruise:
+        return 'departure'
+    target = d_elev + 3000 * FT
+    if target >= ceiling:
+        target = ceiling
+    if target > cruise:
+        return 'arrival'
+    return None
+
+
 def oracle_trajectory(case, impl):
     """Returns a list of (index, message) violations of the property statement on the returned trajectory."""
     import numpy as np
@@ -724,6 +743,10 @@ HIGH_IN_BAND = [('LPB', 'LO3', 17000), ('LPB', 'LO3', 20000), ('LPB', 'CUZ', 230
 HIGH_FALLBACK = [('LPB', 'LO3', 15000), ('LPB', 'LO3', 16355), ('BPX', 'LO4', 17000), ('DCY', 'LO4', 16000),
                  ('HI2', 'LO2', 33000), ('HI5', 'LO1', 33000), ('HI3', 'LO2', 37000), ('HI6', 'LO1', 30000),
                  ('LXA', 'LO4', 14000)]
+# destination within 3000 ft below the cruise level (refused: the descent would have to climb), just outside on both sides
+DEST_BAND = [('BOS', 'DEN', 15000), ('BOS', 'DEN', 13000), ('LAX', 'ABQ', 14000), ('ORD', 'DEN', 15400), ('LO3', 'LPB', 22000),
+             ('LO3', 'CUZ', 19000), ('LO4', 'LXA', 20000), ('JFK', 'DEN', 15431), ('BOS', 'DEN', 12431),
+             ('BOS', 'DEN', 12000), ('BOS', 'DEN', 15500), ('LAX', 'ABQ', 15400), ('LO3', 'CUZ', 21000)]
 SHORT = [('BOS', 'JFK'), ('JFK', 'BOS'), ('LAX', 'SFO'), ('DEN', 'ABQ'), ('LPB', 'CUZ'), ('HI1', 'LO1'), ('LXA', 'LO4'),
          ('LYR', 'YLT'), ('SFO', 'LAX')]
 
@@ -752,7 +775,7 @@ def gen_case(rng, f1_fixed):
                            ('HI4', 'LXA'), ('LXA', 'HI4'), ('HI1', 'HI2'), ('HI1', 'DCY')])
     elif r < 0.80:
         # high origin against a low-ceiling (synthetic, valid) table: the start-altitude fall-back
-        o, d, ceiling = rng.choice(HIGH_IN_BAND if rng.random() < 0.6 else HIGH_FALLBACK)
+        o, d, ceiling = rng.choice(HIGH_IN_BAND if rng.random() < 0.45 else HIGH_FALLBACK if rng.random() < 0.5 else DEST_BAND)
     elif r < 0.90:
         o, d = rng.choice(SHORT)                              # climb + descent barely fit / do not fit
     else:
@@ -979,6 +1002,14 @@ def check_flights(chk: Check, cases, f1_fixed: bool, interp_fixed: bool, gfix: b
                                                  or im['o'][2] > 1500 or abs(im['o'][0] - im['d'][0]) > 180))
         chk.count('flight:' + ('returned' if im['ok'] else im['err']))
         chk.count('steps:' + ('aligned' if not unaligned else 'unaligned'))
+        verdict = altitude_verdict(im['o'][2], im['d'][2], im['ceiling'])
+        if verdict is not None:
+            chk.count('unflyable-by-altitude:' + verdict)
+            if im['ok'] or im['err'] != 'ESchedule':
+                chk.fail(f"{case['o']}-{case['d']} (ceiling {im['ceiling']:.1f} m, elevations {im['o'][2]:.1f} / {im['d'][2]:.1f} m): "
+                         f"the {verdict} airport's level is above the cruise level, but the mission is "
+                         + ('flown' if im['ok'] else f"refused with {im['exc']} instead of the {verdict}-airport reason"),
+                         {'kind': 'flight', 'case': case}, signature=None)
         if case.get('route_km') is not None:
             chk.count('boundary-sweep:' + ('returned' if im['ok'] else im['err']))
         if case.get('wind'):
